@@ -232,7 +232,9 @@ def run(tier):
         "valid triples built from (s, t) (e is free), every single-bit flip of (px, py, e, r, s) (quick: seeded "
         "sample), every argument at lengths 0/1/31/33/64, triples SOLVED to satisfy the verification equation while "
         "violating exactly one side condition (r = 0, s = 0, r >= n, s >= n, r + s = n, [s]G + [t]P = O), public keys "
-        "with a non-canonical coordinate x + p, off curve, (0,0), (p,p), small-x points; id- and za-level wrappers; "
+        "with a non-canonical coordinate x + p AND y + p (points with a prescribed small y are roots of a cubic), off "
+        "curve, (0,0), (p,p), (p, sqrt b), word-structured overshoots r, s = n-1+D and x, y = p-1+D, R chosen first with "
+        "x_R in [n, p); id- and za-level wrappers; "
         "TLC decides each verdict with VerifyDef of module SM2",
         ["TLC; SM2.tla/EC.tla model-checked on a toy curve incl. VerifyTight (accepted => some nonce produces it)",
          "BigNat/EC accelerators compared with the TLA+ definitions on every run",
